@@ -18,6 +18,7 @@ INVARIANT LawPoint
 INVARIANT LawOffset
 INVARIANT LawGrid
 INVARIANT LawMerge
+INVARIANT LawMergedPoint
 INVARIANT InvResult
 INVARIANT InvSound
 INVARIANT InvBound
